@@ -10,6 +10,11 @@ checks = {
  "C09": dict(engine="choice", text="all valid claims-sets with <=3 (thorough 5) deviations from the minimal one, built 4 ways, for P1/P2/ext-P2: decode(encode(x)) getter-identical and byte-stable; every decodable token of C04's deviation<=1 (<=2) enumeration re-encodes to the same getters or errors", note="trusted: getter vector as observation; 4 known findings (invalid UTF-8 text) listed", technique=CHOICE),
  "C10": dict(engine="choice", text="the CBOR emitted for the same valid claims-sets (setter-built, literal, decoded, decoded from odd wire forms) is parsed by the independent reader and compared key by key with the profile wire format", note="trusted: mcbor strict reader, wireTree (expected format written from the statement)", technique=CHOICE),
  "C12": dict(engine="choice", text="JSON round trip through the dispatching decoder, cbor->claims->json->claims->cbor byte equality and member-name/base64/omission checks for all valid claims-sets with <=3 (5) deviations", note="trusted: encoding/json as independent reader", technique=CHOICE),
+ "C02": dict(engine="choice", text="every single-bit flip, truncation and structural-byte substitution of freshly signed tokens (7 algorithms), every splice of protected/payload/signature between 56 tokens, signature replacements, every other key type, and hand-signed envelopes without protected alg/payload: none may verify unless the signed content is unchanged", note="trusted: mcbor view of the envelope; assumes standard cryptographic hardness (a changed message verifies with negligible probability); ECDSA (r,n-s) malleability outside the alphabet", technique=CHOICE),
+ "C03": dict(engine="choice", text="valid claims-sets (<=3/5 deviations) x 7 algorithms x 2 keys x Sign|ValidateAndSign: token parsed by the independent reader, signature re-verified with crypto/* over an independently built Sig_structure, decoded and compared claim by claim, claims = decoding of the covered payload (hook)", note="trusted: mcbor, crypto/*, fixed keys; uses the verif hook VerifMessage", technique=CHOICE),
+ "C08": dict(engine="choice", text="the claims-sets of C01 driven through the seven validating gates; gate fails iff Validate() fails, nothing emitted/attached on failure, valid path equals the non-validating sibling", note="trusted: Validate() as the statement's oracle (its own correctness is C01)", technique=CHOICE),
+ "C19": dict(engine="bfs", text="explicit-state BFS over all histories of 27 operations (attach, sign/validate-and-sign with 2 good and 5 faulty signers, 7 decode inputs, out-of-band claim replacement) on one real Evidence, to the fixpoint of the canonical state space, plus all undeduplicated sequences to depth 3 (4); C19's invariants checked in every state", note="trusted: canonical key (argued in DESIGN.md 5 C19, cross-checked by the differential oracle and the undeduplicated run), verif hook VerifMessage, independent rawVerify", technique="explicit-state breadth-first search over operation histories on the real object (state = history, canonical-key deduplication, fixpoint)"),
+ "C20": dict(engine="choice", text="envelopes assembled by the independent encoder (tag x 4 element classes x array shape x trailing bytes, <=3/4 deviations) and the TF-M vectors: acceptance must imply a strict tagged COSE_Sign1 whose payload is a CBOR map", note="trusted: mcbor; one-directional oracle as stated; open encodings carry no verdict", technique=CHOICE),
  "C14": dict(engine="choice", text="complete enumeration of all 65536 lifecycle values (and all 65536 state values) on the real code against a 7-row reference table; nothing is sampled", note="trusted: the reference table in props/c14.go, the Go toolchain", technique="exhaustive enumeration of the input space (explicit-state, full product)"),
 }
 pending = {}
@@ -29,7 +34,7 @@ for name, path, kind in [("bfs", "engine/bfs", "explicit-state breadth-first sea
 m = {
  "version": 1,
  "setup_cmd": "./setup.sh",
- "hooks": {"guard": "verif", "enable": "go build -tags verif (run.sh does this)", "baseline_off_cmd": "cd /repo && go test -vet=off -count=1 ./...", "source_commits": ["f1cd2a6"], "add_only": True},
+ "hooks": {"guard": "verif", "enable": "go build -tags verif (run.sh does this)", "baseline_off_cmd": "cd /repo && go test -vet=off -count=1 ./...", "source_commits": ["f1cd2a6", "fed4b17"], "add_only": True},
  "engines": engines,
  "checks": [],
  "not_applicable": [{"property_id": k, "reason": v} for k, v in sorted(pending.items())],
